@@ -169,7 +169,10 @@ func (r *rateLimiter) UpdateRateLimitConditionStatus(upstream string, condition 
 			TypeMeta:   upstreamCondition.TypeMeta,
 			ObjectMeta: metav1.ObjectMeta{Name: condition.Name},
 			Spec: proxyv1alpha1.RateLimitSpec{
-				UpstreamCluster:         upstreamCondition.Spec.UpstreamCluster,
+				UpstreamCluster: upstreamCondition.Spec.UpstreamCluster,
+				// the instance label below is taken from here: a first report is labelled with its own
+				// instance, not with "" (which is what the cleanup of an empty instance id selects)
+				Instance:                condition.Spec.Instance,
 				LimitItemConfigurations: condition.Spec.DeepCopy().LimitItemConfigurations,
 			},
 		}
